@@ -80,6 +80,12 @@ SP["mr_x_cat_x_mr_overlaps_deep"]["profiles"] = [
 _reg3("cat_x_cat_x_mr_overlaps", S.cat("t", 2, "first"), "cat", A2, "cat", M2, "mr", 2, 3, cfgs=[{}], weights=(1,),
       only=OV_ONLY, overlaps=True)
 
+CORE_ONLY = {"counts", "unweighted_counts", "column_index", "row_proportions", "column_proportions", "table_proportions",
+             "zscores", "pvals", "rows_margin", "columns_margin", "table_base", "table_margin", "row_labels",
+             "column_labels", "population_counts", "columns_scale_mean", "pairwise_indices"}
+_reg3("mr_x_cat_x_cat_n2", N2, "mr", A2, "cat", B2, "cat", 2, 3, cfgs=[{}], weights=(1,), only=CORE_ONLY)
+_reg3("mr_x_cat_x_mr_n2", N2, "mr", A2, "cat", M2, "mr", 0, 2, cfgs=[{}], weights=(1,), only=CORE_ONLY)
+_reg3("mr_x_mr_x_cat_n2", N2, "mr", M2, "mr", A2, "cat", 0, 2, cfgs=[{}], weights=(1,), only=CORE_ONLY)
 # CA items as the table dimension: [ca_items, ca_cats, cat]
 _ca3 = Schema("ca_x_cat_3d", [CA, B2], [("ca_items", 0), ("ca_cats", 0), ("cat", 1)], weighted=True)
 SCHEMAS["ca_x_cat_3d"] = _ca3
